@@ -1528,8 +1528,14 @@ def idiv(info, a):
     c_d = ExprOp('idiv%d'%s, s1, s2, a)
     c_r = ExprOp('irem%d'%s, s1, s2, a)
 
-    e.append(ExprAff(s1, c_r))
-    e.append(ExprAff(s2, c_d))
+    #if 8 bit div, only ax is affected (one assignment: ah and al are
+    #slices of the same register)
+    if s == 8:
+        e.append(ExprAff(eax[0:16], ExprCompose([(c_d, 0, 8),
+                                                 (c_r, 8, 16)])))
+    else:
+        e.append(ExprAff(s1, c_r))
+        e.append(ExprAff(s2, c_d))
     return e
 
 #XXX size to do; eflag
